@@ -36,6 +36,12 @@ META = {
     "engine": "tlc",
 }
 EXPECTED_ACTIONS = ["First", "AssignPrev", "OpenNext", "AssignNext", "PlaceNext", "Finish"]
+# Which assign_thunk_blocks the specification describes.  False: the function as it is on the tree
+# (finding large-object-after-caller).  True: with fixes/C11-large-object-after-caller.patch applied
+# (Thunks.tla, Fixed = TRUE: PlaceBack); then ReachServable is an invariant of the model, its runs are
+# replayed with 1 unit = 1 MiB (the real function's 2 MiB slack is a constant, R is a parameter), and
+# the old placement (Fixed = FALSE, mc/Thunks_servable.cfg) is only the broken variant TLC must reject.
+FIXED_PLACEMENT = False
 MIB = 1 << 20
 REAL_RANGE = 128 * MIB
 SLACK = 2 * MIB
@@ -44,6 +50,8 @@ R_REAL = REAL_RANGE - SLACK
 
 def model(ctx, cov):
     cfgs = [("mc/Thunks_quick.cfg", 900)] if ctx.quick else [("mc/Thunks_quick.cfg", 900), ("mc/Thunks_thorough.cfg", 1700)]
+    if FIXED_PLACEMENT:
+        cfgs.insert(0, ("mc/Thunks_fixed.cfg", 900))
     states = trans = 0
     records, runs = [], []
     for cfg, to in cfgs:
@@ -51,15 +59,20 @@ def model(ctx, cov):
         runs.append({"cfg": cfg, **r.summary(), "records": len(r.records)})
         if r.timed_out and not ctx.quick and records:
             log(f"{cfg}: timed out with {r.distinct} states (partial: {len(r.records)} runs exported)")
+            for x in r.records:
+                x["unit"] = MIB if "fixed" in cfg else 1
             records += r.records
             continue
         if not r.ok:
             raise ToolError(f"Thunks model check failed ({cfg}): {r.violated} {r.error_text}\n{r.trace_text[:2500]}")
-        missing = tlc.zero_coverage_actions(r, EXPECTED_ACTIONS)
+        missing = tlc.zero_coverage_actions(r, EXPECTED_ACTIONS + (["PlaceBack"] if "fixed" in cfg else []))
         if missing:
             raise ToolError(f"vacuous model run {cfg}: actions never taken: {missing}")
         states += r.distinct
         trans += r.generated
+        for x in r.records:
+            # runs of the Fixed model only mean something to the real function at 1 unit = 1 MiB
+            x["unit"] = MIB if "fixed" in cfg else 1
         records += r.records
     s = tlc.run_tlc("MCThunks", "mc/Thunks_servable.cfg", workers=4, timeout=600, coverage=False)
     if s.ok or s.violated != "ReachServable":
@@ -237,7 +250,8 @@ def run(ctx):
         ctx.verdict.report(key, text, lambda: save_replay(PROP, key.replace(":", "_"), files=files, meta=meta))
 
     # ---- F: replay every run into the real assign_thunk_blocks
-    reqs = [{"objects": r["objects"], "range": r["R"]} for r in records]
+    reqs = [{"objects": [[a * r["unit"], b * r["unit"]] for a, b in r["objects"]], "range": r["R"] * r["unit"]}
+            for r in records]
     res = run_conf("thunks", reqs, timeout=900)
     mism = 0
     for rec, q, got in zip(records, reqs, res):
